@@ -154,6 +154,38 @@ def abstract(seq, src_size):
     return toks
 
 
+def abstract_prefix(seq, src_size):
+    """a PREFIX of one file's calls -> Crash.cstep tokens: a data call is the completing one only if the rename / utimensat
+    that follows it is in the prefix too; otherwise it is a torn write"""
+    toks = []
+    closers = [i for i, (n, t) in enumerate(seq) if n in ("rename", "utime")]
+    limit = closers[0] if closers else None
+    data_before = [i for i, (n, t) in enumerate(seq) if n in ("write", "truncate") and limit is not None and i < limit]
+    last = data_before[-1] if data_before else None
+    for i, (n, t) in enumerate(seq):
+        b = "1" if t else "0"
+        if n == "open-trunc":
+            toks.append("o" + b)
+        elif n in ("open-write", "chmod", "xattr"):
+            toks.append("m" + b)
+        elif n == "unlink":
+            toks.append("r" + b)
+        elif n == "rename":
+            toks.append("R")
+        elif n == "utime":
+            toks.append("U")
+        elif n in ("write", "truncate"):
+            if i == last:
+                toks.append("W" + b)
+            elif src_size == 0 and limit is None and n == "write":
+                toks.append("m" + b)
+            elif n == "truncate":
+                toks.append("l" + b)
+            else:
+                toks.append(("w%s:0" % b) if src_size > 0 else ("m" + b))
+    return toks
+
+
 def cls(e, before, srce, run_start):
     """observed class of a path: 'a' | 'old' | ('new'|'torn', mtime_class)"""
     if e is None:
@@ -252,6 +284,7 @@ def analyse(sc, r, variant, tier, stats, only_k=None):
         stats["temp_programs"] += 1 if kv.get("temp") == "1" else 0
         if kv.get("ok") != "1":
             diffs.append(dict(tag, what="the call sequence observed for %s is not in the modelled class" % rel, seq=progs[rel]["seq"], case=case, model=o[:200]))
+    pending = []
     # crash points
     ks = list(range(1, M + 1)) if only_k is None else [only_k]
     if tier == "quick" and only_k is None and M > 45:
@@ -348,36 +381,55 @@ def analyse(sc, r, variant, tier, stats, only_k=None):
                 continue
             if a_e["kind"] == "f" and (a_e["sha"] != f_e["sha"] or (cmp_mt and a_e["mtime_ns"] != f_e["mtime_ns"])):
                 viol.append(dict(ctag, path=rel, why="after the recovery run the file differs from what an uninterrupted run produces", after=a_e, reference=f_e))
-        # model comparison per transferred file
+        # model comparison per transferred file: the calls this owner EXECUTED in this very run are abstracted to Crash.cstep
+        # (their number may differ from the reference run: extent layout, chunking) and Crash.crash_state is asked for the state
+        # after them; with several workers the last calls of other threads may not have been executed (candidates drop them)
         for rel, pg in progs.items():
             if not pg["ok"]:
                 continue
-            ki = ndone.get(rel, 0)
-            if ki >= len(pg["states"]):
-                diffs.append(dict(ctag, path=rel, what="more calls than the reference program has")); continue
+            own = [(n, t) for (o, n, t, p) in done if o == rel and n != "mkdir"]
             s_e = ssnap[rel]
             o_d = cls(crash.get(rel), before.get(rel), s_e, run_start)
             o_t = "a" if crash.get(temp_of[rel]) is None else "file"
-            stats["state_comparisons"] += 1
-            okk = None
-            for kk in [ki] + [ki - j for j in range(1, inflight.get(rel, 0) + 1) if ki - j >= 0]:
-                d_tok, t_tok, rp = pg["states"][kk].split(";")
-                p_d = pred_cls(d_tok, s_e["mtime_ns"])
-                p_t = "a" if t_tok == "a" else "file"
-                if compatible(p_d, o_d) and p_t == o_t:
-                    okk = kk
-                    break
-            if okk is None:
-                diffs.append(dict(ctag, path=rel, what="crash state differs from Crash.crash_state", prefix=ki, model=[p_d, p_t], impl=[o_d, o_t], case=pg["case"]))
+            cands = []
+            for drop in range(0, min(len(own), inflight.get(rel, 0)) + 1):
+                seq = own[:len(own) - drop]
+                toks = abstract_prefix(seq, s_e["size"])
+                b0 = before.get(rel)
+                d0 = "a" if (b0 is None or b0["kind"] != "f") else "3:1:%d:%d" % (b0["size"], b0["mtime_ns"])
+                cands.append("CP %s %d:%d:7 %s %d %s" % (flags, s_e["size"], s_e["mtime_ns"], d0, now_tok, ",".join(toks) or "-"))
+            pending.append({"ctag": ctag, "rel": rel, "cands": cands, "o_d": o_d, "o_t": o_t, "ev": evs.get(ids.path(rel)), "src_mt": s_e["mtime_ns"]})
+    # evaluate all candidate prefixes in one batch
+    allc = [c for pnd in pending for c in pnd["cands"]]
+    outs = vlib.run_model(allc) if allc else []
+    it = iter(outs)
+    for pnd in pending:
+        res = [next(it) for _ in pnd["cands"]]
+        stats["state_comparisons"] += 1
+        okk, last = None, None
+        for o in res:
+            kv = dict(x.split("=", 1) for x in o.split(" ")) if "=" in o else {}
+            st = kv.get("states", "").split("|")[-1]
+            if not st:
                 continue
-            # the next run's decision
-            ev = evs.get(ids.path(rel))
-            if ev in ("create", "update", "skip") and not p_d.startswith("torn"):
-                want = "skip" if rp == "0" else "transfer"
-                got = "skip" if ev == "skip" else "transfer"
-                stats["replan_comparisons"] += 1
-                if want != got:
-                    diffs.append(dict(ctag, path=rel, what="the recovery run's decision differs from Crash.replans", prefix=ki, model=want, impl=got, case=pg["case"]))
+            d_tok, t_tok, rp = st.split(";")
+            p_d = pred_cls(d_tok, pnd["src_mt"])
+            p_t = "a" if t_tok == "a" else "file"
+            last = (p_d, p_t)
+            if compatible(p_d, pnd["o_d"]) and p_t == pnd["o_t"]:
+                okk = (p_d, rp)
+                break
+        if okk is None:
+            diffs.append(dict(pnd["ctag"], path=pnd["rel"], what="crash state differs from Crash.crash_state", model=last, impl=[pnd["o_d"], pnd["o_t"]], case=pnd["cands"][0][:400]))
+            continue
+        p_d, rp = okk
+        ev = pnd["ev"]
+        if ev in ("create", "update", "skip") and not p_d.startswith("torn") and len(pnd["cands"]) == 1:
+            want = "skip" if rp == "0" else "transfer"
+            got = "skip" if ev == "skip" else "transfer"
+            stats["replan_comparisons"] += 1
+            if want != got:
+                diffs.append(dict(pnd["ctag"], path=pnd["rel"], what="the recovery run's decision differs from Crash.replans", model=want, impl=got, case=pnd["cands"][0][:400]))
     shutil.rmtree(base, ignore_errors=True)
     return viol, diffs
 
